@@ -124,6 +124,9 @@ class Interp:
         self.loop_limit = 100000
         self.native_only = set()   # function objects never interpreted
         self.trace_lines = None    # optional list collecting (file, line)
+        # generator functions that may run natively although their arguments hold symbolic leaves: they only
+        # pass the values through (wrappers still fork on bool() and refuse any silent concretisation)
+        self.native_generators = {"BatchProxy.__resultsgenerator"}
         self.symdict_functions = set()   # qualnames whose empty dict displays become SymDict (symbolic keys)
         from . import models
         models.install(self)
@@ -217,7 +220,7 @@ class Interp:
                 return self.call_value(fn, (f.__self__,) + tuple(args), kwargs)
         if isinstance(f, types.FunctionType) and self.interpretable(f):
             if f.__code__.co_flags & CO_GENERATOR:
-                if contains_sym(args) or contains_sym(kwargs):
+                if (contains_sym(args) or contains_sym(kwargs)) and f.__qualname__ not in self.native_generators:
                     raise Unmodelled("generator function %s called with symbolic arguments" % f.__qualname__)
                 return f(*args, **kwargs)
             return self.call_real_function(f, args, kwargs)
